@@ -32,6 +32,10 @@ Ops(m, f) ==
     [] f = "rd,lab"     -> { O(r, -1, -1, 0, -1) : r \in Singles }
     [] f = "rs"         -> { O(-1, r, -1, 0, -1) : r \in Singles \ {0} }
     [] f = "rd,rs,imm"  -> { O(p[1], p[2], -1, i, -1) : p \in Pairs, i \in {-4, 0, 4} }
+    [] f = "rs,imm"     -> { O(-1, r, -1, i, -1) : r \in Singles \ {0}, i \in {-4, 0, 8} }
+    [] f = "rd,imm"     -> { O(r, -1, -1, i, -1) : r \in Singles, i \in Offs }
+    [] f = "rs2,imm"    -> { O(-1, -1, r, i, -1) : r \in Singles, i \in Offs }
+    [] f = "rs2,imm,tmp" -> { O(p[2], -1, p[1], i, -1) : p \in Pairs \ {<<8, 0>>}, i \in Offs }
     [] f = "rd,imm(rs)" -> { O(p[1], p[2], -1, i, -1) : p \in Pairs, i \in Offs }
     [] f = "rd,(rs)"    -> { O(p[1], p[2], -1, 0, -1) : p \in Pairs }
     [] f = "rs2,imm(rs1)" -> { O(-1, p[2], p[1], i, -1) : p \in Pairs, i \in Offs }
@@ -64,6 +68,10 @@ Text(m, f, oo, sp) ==
     [] f = "lab"        -> m \o " L"
     [] f = "rd,lab"     -> m \o " " \o rd \o ", L"
     [] f = "rs"         -> m \o " " \o r1
+    [] f = "rs,imm"     -> m \o " " \o r1 \o ", " \o im
+    [] f = "rd,imm"     -> m \o " " \o rd \o ", " \o im
+    [] f = "rs2,imm"    -> m \o " " \o r2 \o ", " \o im
+    [] f = "rs2,imm,tmp" -> m \o " " \o r2 \o ", " \o im \o ", " \o rd
     [] f = "rd,imm(rs)" -> m \o " " \o rd \o ", " \o im \o "(" \o r1 \o ")"
     [] f = "rd,(rs)"    -> m \o " " \o rd \o ", (" \o r1 \o ")"
     [] f = "rs2,imm(rs1)" -> m \o " " \o r2 \o ", " \o im \o "(" \o r1 \o ")"
